@@ -1,0 +1,278 @@
+//! Verification-only hooks (compiled only with `--cfg cormacrelf_incremental_rs_verif`).
+//!
+//! A registry of every node created in a state, and an audit of the engine's bookkeeping in the
+//! spirit of the `invariant` functions of the OCaml library. Nothing here mutates engine state.
+
+use std::collections::HashSet;
+use std::rc::Rc;
+
+use crate::internal_observer::ObserverState;
+use crate::node::{ErasedNode, Node};
+use crate::scope::Scope;
+use crate::{IncrState, NodeRef};
+
+pub(crate) fn register_node(node: &NodeRef) {
+    if let Some(state) = node.weak_state().upgrade() {
+        state.verif_all_nodes.borrow_mut().push(Rc::downgrade(node));
+    }
+}
+
+fn same(a: &Node, b: &Node) -> bool {
+    std::ptr::eq(a as *const Node, b as *const Node)
+}
+
+fn child_at(parent: &Node, index: i32) -> Option<NodeRef> {
+    let mut found = None;
+    parent.foreach_child(&mut |ix, child| {
+        if ix == index {
+            found = Some(child);
+        }
+    });
+    found
+}
+
+/// (valid, necessary, height of the bind's lhs-change node) of the scope, or None for a dead bind.
+fn scope_info(scope: &Scope) -> Option<(bool, bool, i32)> {
+    match scope {
+        Scope::Top => Some((true, true, 0)),
+        Scope::Bind(weak) => {
+            let bind = weak.upgrade()?;
+            let lhs_change = bind.verif_height()?;
+            Some((bind.is_valid(), bind.is_necessary(), lhs_change))
+        }
+    }
+}
+
+impl IncrState {
+    /// Number of nodes created in this state that are still alive.
+    pub fn verif_live_nodes(&self) -> usize {
+        let mut all = self.inner.verif_all_nodes.borrow_mut();
+        all.retain(|w| w.strong_count() > 0);
+        all.len()
+    }
+
+    /// Greatest height of any live node (-1 if there is none).
+    pub fn verif_max_height_in_use(&self) -> i32 {
+        let all = self.inner.verif_all_nodes.borrow();
+        all.iter()
+            .filter_map(|w| w.upgrade())
+            .map(|n| n.height())
+            .max()
+            .unwrap_or(-1)
+    }
+
+    /// Number of live nodes that are currently necessary.
+    pub fn verif_num_necessary(&self) -> usize {
+        let all = self.inner.verif_all_nodes.borrow();
+        all.iter()
+            .filter_map(|w| w.upgrade())
+            .filter(|n| n.is_necessary())
+            .count()
+    }
+
+    /// Audits the dependency bookkeeping. Returns one line per inconsistency found.
+    /// Must be called outside of stabilise.
+    pub fn verif_audit(&self) -> Vec<String> {
+        let t = &*self.inner;
+        let mut out = Vec::new();
+        if t.is_stabilising() {
+            out.push("verif_audit called while stabilising".to_string());
+            return out;
+        }
+        let nodes: Vec<NodeRef> = {
+            let mut all = t.verif_all_nodes.borrow_mut();
+            all.retain(|w| w.strong_count() > 0);
+            all.iter().filter_map(|w| w.upgrade()).collect()
+        };
+        let max_allowed = t.recompute_heap.max_height_allowed();
+        {
+            let ahh = t.adjust_heights_heap.borrow();
+            ahh.verif_audit(&mut out);
+            if ahh.max_height_allowed() != max_allowed {
+                out.push(format!(
+                    "height limits disagree: adjust-heights heap {} vs recompute heap {max_allowed}",
+                    ahh.max_height_allowed()
+                ));
+            }
+        }
+        let queued = t.recompute_heap.verif_audit(&mut out);
+        let mut queued_ids = HashSet::new();
+        for q in &queued {
+            if !queued_ids.insert(q.id()) {
+                out.push(format!("recompute heap: node {:?} queued twice", q.id()));
+            }
+            if !q.needs_to_be_computed() {
+                out.push(format!(
+                    "recompute heap: node {:?} ({}) is queued but is not necessary-and-stale (necessary={}, stale={}, valid={})",
+                    q.id(), q.kind_debug_ty(), q.is_necessary(), q.is_stale(), q.is_valid()
+                ));
+            }
+        }
+        let queue_empty = queued.is_empty();
+        let mut necessary_count = 0usize;
+        for n in &nodes {
+            let id = n.id();
+            let necessary = n.is_necessary();
+            let valid = n.is_valid();
+            let in_heap = n.is_in_recompute_heap();
+            if in_heap != queued_ids.contains(&id) {
+                out.push(format!(
+                    "node {id:?}: height_in_recompute_heap={} but found in heap = {}",
+                    n.height_in_recompute_heap().get(),
+                    queued_ids.contains(&id)
+                ));
+            }
+            if n.height_in_adjust_heights_heap().get() != -1 {
+                out.push(format!("node {id:?}: still marked as in the adjust-heights heap"));
+            }
+            if n.height() > max_allowed {
+                out.push(format!("node {id:?}: height {} above the limit {max_allowed}", n.height()));
+            }
+            if necessary {
+                necessary_count += 1;
+            } else {
+                if in_heap {
+                    out.push(format!("node {id:?}: unnecessary but scheduled for recompute"));
+                }
+                if !n.parents.borrow().is_empty() {
+                    out.push(format!("node {id:?}: unnecessary but has dependants"));
+                }
+            }
+            if necessary && n.needs_to_be_computed() && !in_heap {
+                out.push(format!(
+                    "node {id:?} ({}): necessary and stale but not scheduled for recompute",
+                    n.kind_debug_ty()
+                ));
+            }
+            if necessary && valid {
+                if n.height() < 0 {
+                    out.push(format!("node {id:?}: necessary but height {}", n.height()));
+                }
+                if let Some((scope_valid, scope_necessary, scope_height)) = scope_info(&n.created_in) {
+                    if scope_valid && scope_necessary && n.height() <= scope_height {
+                        out.push(format!(
+                            "node {id:?}: height {} not above its defining bind (height {scope_height})",
+                            n.height()
+                        ));
+                    }
+                }
+                if queue_empty && n.value_as_any().is_none() {
+                    out.push(format!(
+                        "node {id:?} ({}): necessary and valid with nothing pending, but has no value",
+                        n.kind_debug_ty()
+                    ));
+                }
+            }
+            // edges towards inputs
+            if necessary && valid {
+                let pci = n.parent_child_indices.borrow();
+                n.foreach_child(&mut |ix, child| {
+                    if child.height() >= n.height() {
+                        out.push(format!(
+                            "edge {:?}->{id:?}: input height {} not below dependant height {}",
+                            child.id(), child.height(), n.height()
+                        ));
+                    }
+                    if !child.is_necessary() {
+                        out.push(format!("edge {:?}->{id:?}: input of a necessary node is not necessary", child.id()));
+                    }
+                    let Some(&pi) = pci.my_parent_index_in_child_at_index.get(ix as usize) else {
+                        out.push(format!("edge {:?}->{id:?}: no parent index recorded for input slot {ix}", child.id()));
+                        return;
+                    };
+                    if pi < 0 {
+                        out.push(format!("edge {:?}->{id:?}: input slot {ix} has parent index {pi}", child.id()));
+                        return;
+                    }
+                    let cparents = child.parents.borrow();
+                    match cparents.get(pi as usize).and_then(|w| w.upgrade()) {
+                        Some(p) if same(&p, n) => {}
+                        _ => out.push(format!(
+                            "edge {:?}->{id:?}: input slot {ix} says parent index {pi}, but the input does not list this node there",
+                            child.id()
+                        )),
+                    }
+                    let cpci = child.parent_child_indices.borrow();
+                    if cpci.my_child_index_in_parent_at_index.get(pi as usize).copied() != Some(ix) {
+                        out.push(format!(
+                            "edge {:?}->{id:?}: input records child index {:?} for parent slot {pi}, expected {ix}",
+                            child.id(),
+                            cpci.my_child_index_in_parent_at_index.get(pi as usize)
+                        ));
+                    }
+                });
+            }
+            // edges towards dependants
+            {
+                let parents = n.parents.borrow();
+                let pci = n.parent_child_indices.borrow();
+                for (pi, weak) in parents.iter().enumerate() {
+                    let Some(p) = weak.upgrade() else {
+                        out.push(format!("node {id:?}: dependant #{pi} has been deallocated but is still linked"));
+                        continue;
+                    };
+                    if !p.is_necessary() {
+                        out.push(format!("edge {id:?}->{:?}: dependant is linked but not necessary", p.id()));
+                    }
+                    let Some(&ci) = pci.my_child_index_in_parent_at_index.get(pi) else {
+                        out.push(format!("edge {id:?}->{:?}: no child index recorded for dependant #{pi}", p.id()));
+                        continue;
+                    };
+                    match child_at(&p, ci) {
+                        Some(c) if same(&c, n) => {}
+                        _ => out.push(format!(
+                            "edge {id:?}->{:?}: dependant #{pi} is said to hold this node at input slot {ci}, but does not",
+                            p.id()
+                        )),
+                    }
+                    let ppci = p.parent_child_indices.borrow();
+                    if ppci.my_parent_index_in_child_at_index.get(ci as usize).copied() != Some(pi as i32) {
+                        out.push(format!(
+                            "edge {id:?}->{:?}: dependant records parent index {:?} for input slot {ci}, expected {pi}",
+                            p.id(),
+                            ppci.my_parent_index_in_child_at_index.get(ci as usize)
+                        ));
+                    }
+                }
+            }
+            // handler count
+            {
+                let mut registered = n.on_update_handlers.borrow().len() as i32;
+                for (oid, weak) in n.observers.borrow().iter() {
+                    match weak.upgrade() {
+                        Some(obs) => {
+                            registered += obs.num_handlers();
+                            if !t.all_observers.borrow().contains_key(oid) {
+                                out.push(format!("node {id:?}: observer {oid:?} linked to the node but unknown to the state"));
+                            }
+                        }
+                        None => out.push(format!("node {id:?}: observer {oid:?} linked to the node has been deallocated")),
+                    }
+                }
+                if registered != n.num_on_update_handlers.get() {
+                    out.push(format!(
+                        "node {id:?}: num_on_update_handlers={} but {registered} handlers are registered",
+                        n.num_on_update_handlers.get()
+                    ));
+                }
+            }
+        }
+        for (oid, obs) in t.all_observers.borrow().iter() {
+            match obs.state().get() {
+                ObserverState::InUse | ObserverState::Disallowed => {}
+                other => out.push(format!("observer {oid:?} is registered with the state in state {other:?}")),
+            }
+            if !obs.observing_erased().observers.borrow().contains_key(oid) {
+                out.push(format!("observer {oid:?} is registered with the state but not linked to its node"));
+            }
+        }
+        let stats = self.stats();
+        if stats.necessary != necessary_count {
+            out.push(format!(
+                "stats().necessary = {} but {necessary_count} live nodes are necessary",
+                stats.necessary
+            ));
+        }
+        out
+    }
+}
